@@ -76,7 +76,7 @@ func TestVerif_C47(t *testing.T) {
 	env := &c47Env{t: t, base: dir, srv: srv}
 	defer func() { env.srv.Stop() }()
 	env.connect(t)
-	vh.Check(t, "undrop", 90, 300, func(rt *rapid.T) {
+	vh.Check(t, "undrop", 90, 200, func(rt *rapid.T) {
 		c47Run(rt, env, rec)
 	})
 }
